@@ -191,8 +191,22 @@ struct Flavor {
     char store;      // p, l, t
 };
 
+//! does this tree class keep the key pointers it is given (pointer classes) rather than copying the keys?
 template <typename LT, typename T, typename Cmp>
-static void run_guarded(const std::vector<std::vector<T> >& seqs, const Cmp& cmp, const Flavor& f, std::string& out) {
+constexpr bool retains_pointers() {
+    return std::is_base_of<tlx::LoserTreePointerBase<T, Cmp>, LT>::value ||
+           std::is_base_of<tlx::LoserTreePointerUnguardedBase<T, Cmp>, LT>::value;
+}
+//! temporaries that die after the call are only legitimate for classes that copy (the switch alias may pick either)
+template <typename LT, typename T, typename Cmp>
+static Flavor adjust(Flavor f) {
+    if (f.store == 't' && retains_pointers<LT, T, Cmp>()) f.store = 'p';
+    return f;
+}
+
+template <typename LT, typename T, typename Cmp>
+static void run_guarded(const std::vector<std::vector<T> >& seqs, const Cmp& cmp, const Flavor& f0, std::string& out) {
+    const Flavor f = adjust<LT, T, Cmp>(f0);
     using Source = typename LT::Source;
     const Source k = static_cast<Source>(seqs.size());
     if (f.via == 'm') {
@@ -210,8 +224,9 @@ static void run_guarded(const std::vector<std::vector<T> >& seqs, const Cmp& cmp
 }
 
 template <typename LT, typename T, typename Cmp>
-static void run_unguarded(const std::vector<std::vector<T> >& seqs, const T& sentinel, const Cmp& cmp, const Flavor& f,
+static void run_unguarded(const std::vector<std::vector<T> >& seqs, const T& sentinel, const Cmp& cmp, const Flavor& f0,
                           std::string& out) {
+    const Flavor f = adjust<LT, T, Cmp>(f0);
     using Source = typename LT::Source;
     const Source k = static_cast<Source>(seqs.size());
     if (f.pass_cmp) {
@@ -314,7 +329,7 @@ int main(int argc, char** argv) {
         if (keys.empty() || (vs[0] != 'P' && vs[0] != 'C') || (f.mode != 'G' && f.mode != 'U' && f.mode != 'V') ||
             (vs[2] != 'S' && vs[2] != 'N') || (f.via != 'd' && f.via != 's' && f.via != 'm') ||
             (f.via == 'm' && f.mode != 'G') || (f.store != 'p' && f.store != 'l' && f.store != 't') ||
-            (f.store == 't' && P && f.via != 's')) {
+            (f.store == 't' && P)) {
             std::cout << "?" << std::endl;
             continue;
         }
